@@ -531,6 +531,9 @@ func TestCheck(t *testing.T) {
 	for i := 0; i < ev.Pick(4, 24); i++ {
 		consensusChange(t, run, i, i%2 == 1)
 	}
+	for i := 0; i < ev.Pick(3, 12); i++ {
+		conflictWindowEdge(t, run, i, i%2 == 1)
+	}
 	nh := ev.Pick(2, 6)
 	nstates := ev.Pick(6, 14)
 	nb := ev.Pick(40, 70)
